@@ -141,6 +141,22 @@ impl Shape {
             Shape::And(a, b) | Shape::Or(a, b) => 1 + a.depth().max(b.depth()),
         }
     }
+    pub fn has_not(&self) -> bool {
+        match self {
+            Shape::Leaf => false,
+            Shape::Not(_) => true,
+            Shape::And(a, b) | Shape::Or(a, b) => a.has_not() || b.has_not(),
+        }
+    }
+    /// every OR node combines NOT-free subtrees
+    pub fn or_safe(&self) -> bool {
+        match self {
+            Shape::Leaf => true,
+            Shape::Not(a) => a.or_safe(),
+            Shape::And(a, b) => a.or_safe() && b.or_safe(),
+            Shape::Or(a, b) => !a.has_not() && !b.has_not() && a.or_safe() && b.or_safe(),
+        }
+    }
     pub fn has_op(&self) -> bool {
         !matches!(self, Shape::Leaf)
     }
